@@ -634,3 +634,51 @@ mut('c14-step-drops', 'C14', ['C14.4'], S,
     "        logger.debug(f'🏃 {self}.step({event}) STARTING')\n",
     "        logger.debug(f'🏃 {self}.step({event}) STARTING')\n        if event.event_timeout == 0:\n            return event\n",
     'an accepted event is not processed')
+
+# ================================================================================================ C15
+mut('c15-drop-recheck-loop', 'C15', ['C15.1'], S,
+    "            while not self._on_idle.is_set() or self.events_started or self.events_pending:",
+    "            while False:",
+    're-check loop removed')
+mut('c15-no-pending-term', 'C15', ['C15.1'], S,
+    "            while not self._on_idle.is_set() or self.events_started or self.events_pending:",
+    "            while not self._on_idle.is_set() or self.events_started:",
+    'pending events not re-checked')
+mut('c15-early-return', 'C15', ['C15.1'], S,
+    "            # Wait for idle state\n            idle_task = asyncio.create_task(self._on_idle.wait())\n",
+    "            if not self.event_history:\n                return\n            # Wait for idle state\n            idle_task = asyncio.create_task(self._on_idle.wait())\n",
+    'early return that skips the re-check')
+mut('c15-break-in-loop', 'C15', ['C15.1'], S,
+    "                # Clear and wait again\n                self._on_idle.clear()\n",
+    "                if not self.events_started:\n                    break\n                # Clear and wait again\n                self._on_idle.clear()\n",
+    'loop left while events are pending')
+mut('c15-timeout-without-timeout', 'C15', ['C15.1'], S,
+    "                if timeout is not None:\n                    elapsed = asyncio.get_event_loop().time() - start_time\n                    remaining_timeout = max(0, timeout - elapsed)\n                    if remaining_timeout <= 0:\n                        raise TimeoutError()\n",
+    "                elapsed = asyncio.get_event_loop().time() - start_time\n                if elapsed > 60:\n                    raise TimeoutError()\n",
+    'gives up after 60 s even without a timeout')
+mut('c15-sleep-after-test', 'C15', ['C15.1'], S,
+    "        except TimeoutError:\n            logger.warning(\n                f'⌛️ {self} Timeout waiting for event bus to be idle",
+    "            await asyncio.sleep(0)\n        except TimeoutError:\n            logger.warning(\n                f'⌛️ {self} Timeout waiting for event bus to be idle",
+    'a suspension point between the final test and the return')
+mut('c15-unconditional-idle', 'C15', ['C15.2'], S,
+    "                    if self._on_idle and self.event_queue:\n                        if not (self.events_pending or self.events_started or self.event_queue.qsize()):\n                            self._on_idle.set()\n",
+    "                    if self._on_idle and self.event_queue:\n                        self._on_idle.set()\n",
+    'flag set after every step')
+mut('c15-idle-ignores-queue', 'C15', ['C15.2'], S,
+    "                if not (self.events_pending or self.events_started or self.event_queue.qsize()):\n                    self._on_idle.set()\n                return None\n",
+    "                if not (self.events_pending or self.events_started):\n                    self._on_idle.set()\n                return None\n",
+    'idle although events are queued')
+mut('c15-no-clear-in-step', 'C15', ['C15.2'], S,
+    "        # Clear idle state when we get an event\n        self._on_idle.clear()\n", "",
+    'flag stays set while processing')
+mut('c15-no-join', 'C15', ['C15.3'], S,
+    "            join_task = asyncio.create_task(self.event_queue.join())\n            await asyncio.wait_for(join_task, timeout=remaining_timeout)\n",
+    "            join_task = asyncio.create_task(self.event_queue.join())\n",
+    'join task never awaited')
+mut('c15-no-task-done', 'C15', ['C15.4'], S,
+    "            if from_queue:\n                self.event_queue.task_done()\n", "            pass\n",
+    'task_done removed from step')
+mut('c15-new-raise-before-mark', 'C15', ['C15.5'], S,
+    "        # Execute handlers\n        await self._execute_handlers(event, handlers=applicable_handlers, timeout=timeout)\n",
+    "        if len(applicable_handlers) > 64:\n            raise ValueError('too many handlers')\n        # Execute handlers\n        await self._execute_handlers(event, handlers=applicable_handlers, timeout=timeout)\n",
+    'a new exception leaves an event pending forever (new key)')
